@@ -6,7 +6,8 @@ datetime arithmetic, dict subscripts with a computed key, ...). Filters: try/exc
 (subclass-aware), contextlib.suppress, re-raise.
 
 Not modelled (stated in every evidence file): TypeError/AttributeError from ill-typed
-values, MemoryError, RecursionError, IndexError from sequence indexing, OSError,
+values, MemoryError, RecursionError, IndexError from str/bytes indexing (list/tuple indexing is
+modelled under Policy.count_index, see seqlen.py), OSError,
 KeyboardInterrupt/SystemExit, CancelledError (handled as cancellation edges by the CFG).
 """
 
@@ -20,7 +21,7 @@ from typing import Any, Callable
 from .callgraph import CallGraph, CallSite
 from .loader import FuncInfo, Repo, own_nodes
 
-TABLE_VERSION = "2026-09-29.1"
+TABLE_VERSION = "2026-09-29.2"
 
 # ---- class hierarchy of non-repo exception classes (python's own, by introspection) ----
 
@@ -247,6 +248,7 @@ class Policy:
 
     count_assert: str = "input"  # none | input | all
     count_keyerror: bool = True
+    count_index: bool = False  # list/tuple[<int>] -> IndexError unless a length bound is proven (seqlen.py)
     count_div: bool = True
     count_dt_overflow: bool = True
     count_invalid_state: bool = False  # Future.set_* -> InvalidStateError (typestate rule decides it)
@@ -1055,7 +1057,29 @@ class ExcAnalysis:
                         return _is_nonzero_const(st.value)
         return False
 
+    def _seq_index(self, n: ast.Subscript) -> dict[str, Origin]:
+        """list/tuple[<constant or range-bounded index>]: IndexError unless seqlen proves the length."""
+        f = self._f
+        if isinstance(n.slice, ast.Slice):
+            return Esc()
+        sl = getattr(self, "_seqlen", None)
+        if sl is None:
+            from .seqlen import SeqLen
+
+            sl = self._seqlen = SeqLen(self.repo, self.cg, self.consts)
+        if not sl.is_seq(f, n.value) or sl._needed(f, n.slice) is None:
+            return Esc()  # not a list/tuple, or a computed index: outside the model (stated in the evidence)
+        why = sl.index_safe(f, n)
+        if why:
+            self.discharged.setdefault((f.qualname, "builtins.IndexError", getattr(n, "lineno", 0)), why)
+            return Esc()
+        return Esc({"builtins.IndexError": Origin("implicit", f, n, "sequence[<index>] with no proven length bound")})
+
     def _subscript(self, n: ast.Subscript, load: bool = True) -> dict[str, Origin]:
+        if self.policy.count_index:
+            out = self._seq_index(n)
+            if out:
+                return out
         if not self.policy.count_keyerror:
             return Esc()
         if self.policy.implicit_only_tainted and not self._expr_tainted(n.slice, self._tainted):
